@@ -284,17 +284,21 @@ class SteerCalc(Calculator):
 
 
 class StubTab(Calculator):
-    """stub tabulator: KBandResult with a unique periodic payload per (k, band, component)"""
+    """stub tabulator: KBandResult with a unique periodic payload per (k, band, component); honours `ibands`
+    like the real tabulators (TabulatorAll sets it)"""
 
     def __init__(self, field_seed, nband=2, rank=0, **kw):
         super().__init__(**kw)
         self.nband, self.rank = nband, rank
+        self.ibands = None
         self.field = GField(field_seed, ncomp=nband * 3 ** rank, nterms=6, nmax=3)
         self.comment = "stub tabulator"
 
     def __call__(self, data_K):
         k = np.asarray(data_K.kpoints_all, dtype=float)
         g = self.field(k).reshape((len(k), self.nband) + (3,) * self.rank)
+        if self.ibands is not None:
+            g = g[:, np.asarray(self.ibands, dtype=int)]
         return KBandResult(g, transformTR=transform_ident, transformInv=transform_ident)
 
     def value_at(self, k):
